@@ -89,7 +89,7 @@ def trace_validate(res, n_traces, n_calls, what='random-histories'):
     # binding self-test: one corrupted observation must be rejected exactly there
     bad = copy.deepcopy(traces[:1])
     k = next((i for i, e in enumerate(bad[0]['events']) if e['log']), None)
-    if k is not None:
+    if k is not None and not rej:       # (a rejected recording is reported as it is: the self-test needs a sound trace)
         bad[0]['events'][k]['log'] = bad[0]['events'][k]['log'][:-1]
         r2 = tracecheck.validate(res, 'DispatcherTrace', what + '-corrupted', bad, TRACE_CONSTS)
         ok = len(r2) == 1 and r2[0][1] == k
